@@ -191,7 +191,7 @@ def main():
         report = prepare(spec["gen"])
         missing = [f"{g}.{k}: {v}" for g in spec["gen"] for k, v in report.get(g, {}).items() if v != "ok"]
         targets = [f"Run/{r}.vo" for r in spec["runners"]] + [f"RunP/{r}.vo" for r in spec["runners"]]
-        ok_run, out_run = make(targets)
+        ok_run, out_run = make(targets) if targets else (True, "")
         if not ok_run:
             # the runners over Gen may fail to type-check if Gen changed shape; pinned runners must build
             ok_runp, out_runp = make([f"RunP/{r}.vo" for r in spec["runners"]])
